@@ -108,22 +108,47 @@ def gen_cases(ctx, out):
             k += 1
         stats.append({"cfg": cfg, "behaviours_emitted": emitted, "distinct_cases": k,
                       "states": r.distinct, "generated": r.generated, "exhaustive": sim is None})
+    # wire-level dimensions the model abstracts from: the response header version (0: MetadataRequest,
+    # 1: flexible header, ListPartitionReassignmentsRequest with Version 2.4) and the length field of
+    # runt (0,1,3,4) / shortbody (5,7,8) frames. Behaviours of the 2-caller configuration are run with
+    # every combination, the others rotate through them.
+    RUNT = [(ln, hv) for ln in (4, 0, 1, 3) for hv in (1, 0)]
+    SHORT = [(ln, hv) for ln in (5, 7, 8) for hv in (0, 1)]
+    expanded = []
+    rot = {"runt": 0, "shortbody": 0, "": 0}
+    for c in cases:
+        kinds = {x["kind"] for x in c["steps"] if x["a"] == "srv"}
+        k = "runt" if "runt" in kinds else "shortbody" if "shortbody" in kinds else ""
+        combos = RUNT if k == "runt" else SHORT if k == "shortbody" else [(0, 0), (0, 1)]
+        if c["src"] == "gen2" and k:
+            for ln, hv in combos:
+                expanded.append(dict(c, len=ln, hv=hv))
+        else:
+            ln, hv = combos[rot[k] % len(combos)]
+            rot[k] += 1
+            expanded.append(dict(c, len=ln, hv=hv))
+    cases = expanded
+    for i, c in enumerate(cases):
+        c["id"] = i + 1
     # impatient re-runs: a behaviour in which the server still sends something after the read timeout is
     # replayed a second time with the conductor waiting only for the FIRST of the returns the model expects
     # before it goes on (also a behaviour of the unrestricted model: the peer may act at any time) - a
     # late / out-of-order answer then meets a client that is still failing its outstanding promises
     extra = []
     for c in cases:
-        if c["src"] != "gen2":
+        if c["src"] not in ("gen", "gen2"):
             continue
         acts = [(x["a"], x["kind"]) for x in c["steps"]]
-        if ("timeout", "-") in acts and any(a == "srv" for a, _ in acts[acts.index(("timeout", "-")):]):
-            d = dict(c, src="gen2-impatient", impatient=True)
+        late = ("timeout", "-") in acts and any(a == "srv" for a, _ in acts[acts.index(("timeout", "-")):])
+        # ... or pipelines frames behind a runt frame (the client may still be waiting for header bytes)
+        runt = any(acts[k] == ("srv", "runt") and acts[k + 1][0] == "srv" for k in range(len(acts) - 1))
+        if late or runt:
+            d = dict(c, src=c["src"] + "-impatient", impatient=True)
             extra.append(d)
     for d in extra:
         d["id"] = len(cases) + 1
         cases.append(d)
-    stats.append({"cfg": "impatient re-runs of BrokerConn.gen2.cfg behaviours", "behaviours_emitted": len(extra),
+    stats.append({"cfg": "impatient re-runs of late-answer behaviours", "behaviours_emitted": len(extra),
                   "distinct_cases": len(extra), "states": 0, "generated": 0, "exhaustive": False})
     if not cases:
         raise vlib.Inconclusive("no behaviours generated")
@@ -142,7 +167,7 @@ def model_runs(ctx, res, which):
             res["live"] = ctx.tlc("BrokerConn", "BrokerConn.live.cfg", workers=4, timeout=900, name="live")
         else:
             safety_cfg = "BrokerConn.safety.cfg" if ctx.tier == "thorough" else "BrokerConn.safetyq.cfg"
-            res["safety"] = ctx.tlc("BrokerConn", safety_cfg, workers=12, timeout=1500, name="safety")
+            res["safety"] = ctx.tlc("BrokerConn", safety_cfg, workers=6 if ctx.tier == "quick" else 12, timeout=1500, name="safety")
     except Exception as e:  # noqa: BLE001
         res["exc"] = e
 
@@ -152,6 +177,8 @@ def run(ctx):
     th1 = threading.Thread(target=model_runs, args=(ctx, mres, "light"))
     th1.start()
     th2 = threading.Thread(target=model_runs, args=(ctx, mres, "safety"))
+    if ctx.tier == "quick":
+        th2.start()     # quick: 1.5 M states, next to everything else (may cost some conductor drift, which is soft)
     # compile the harness while TLC generates the behaviours
     warm = threading.Thread(target=lambda: ctx.go_test("^TestVerifNothing$", timeout=600, name="go-warm"))
     warm.start()
@@ -161,7 +188,18 @@ def run(ctx):
         warm.join()
         th1.join()
         rc, out, outdir = ctx.go_test("^TestVerifBrokerConn$", env={"VERIF_CASES": casefile}, timeout=1200)
-        th2.start()
+        if th2.ident is None:
+            th2.start()
+        if rc != 0 and ("panic: " in out or "fatal error: " in out):
+            # the harness process died from a panic: inside sarama code it is a violation of no_panic
+            crash = vlib.crash_violations(out)
+            if crash:
+                th2.join()
+                return vlib.finish(ctx, "model_checking",
+                                   {"evaluations": len(cases), "distinct_nontrivial": len(cases),
+                                    "rule": "behaviours of spec/BrokerConn.tla replayed on a real Broker; the replay process crashed",
+                                    "samples": cases[:2], "explanation": "harness process crashed by a panic in sarama code"},
+                                   crash, ["see checks/c14.py"], save={"cases.ndjson": casefile, "go.out": os.path.join(outdir, "go.out")})
         ctx.need_go(rc, out, "broker connection replay")
         trace = os.path.join(outdir, "trace.ndjson")
         summary = json.load(open(os.path.join(outdir, "summary.json")))
@@ -191,7 +229,8 @@ def run(ctx):
         allv += [{"trace": t, "index": i, "clause": c} for t, i, c in vl[0]]
         for t, i, ex in fl[0]:
             feats[(t, i)] = ex
-    if tstats.get("traces", 0) != summary["cases"] or summary["cases"] == 0:
+    extra_traces = 1 if summary.get("unattributed_panics") else 0
+    if tstats.get("traces", 0) != summary["cases"] + extra_traces or summary["cases"] == 0:
         raise vlib.Inconclusive("trace validation evaluated %s traces, harness recorded %s" % (tstats.get("traces"), summary["cases"]))
     if tstats["calls"] != summary["calls"]:
         raise vlib.Inconclusive("trace validation saw %d calls, harness started %d" % (tstats["calls"], summary["calls"]))
